@@ -22,7 +22,8 @@ MANIFEST = {
             'lfs/mem, ranks-per-node limit, colocate history, that no request '
             'exceeding a node was granted, and the resources figure; the '
             'occupancy states are those reached by the gated histories '
-            '(arrivals, completions, cancels between loop steps).',
+            '(arrivals, completions, cancels between loop steps).'
+            '  Third session: the application-level shape workload builds NUMA nodes (a NUMA rank must stay in one domain and still carry the requested lfs/mem) and shared cores.',
     'note': 'Continuous scheduler; colocate rule checked as "nodes subset of '
             'all nodes used earlier for that tag"; sampled histories.'}
 RULE   = ('same gated histories as C01 (biased to shapes that exactly fill / '
